@@ -101,6 +101,7 @@ def sites_of(bj):
             if a["msg"] in ("ResumedAfterReturn", "ResumedAfterPanic", "ResumedAfterDrop"):
                 continue
             out.append({"kind": "assert", "bb": bb, "what": a["msg"], "ops": [canon(body.expr_of_operand(o)) for o in a["ops"]],
+                        "cond": canon(body.expr_of_operand(a["cond"])) if a.get("cond") is not None else None, "expected": a.get("expected"),
                         "sp": t.get("sp")})
         elif "call" in t:
             c = t["call"]
